@@ -192,6 +192,33 @@ def run(ctx):
         from sa.flow import mentions as _m
         rd.check(_m(arg_nodes(dd[0])[0], t) and not _m(arg_nodes(dd[0])[0], taint_closure(da, {param_did(da, "dependency")}) - t), "actOnRuleDependency|from-unescaped-word", "",
                  "the recorded dependency does not derive from the un-escaped word", da, dd[0])
+    # nothing that stays true from build to build forces a change
+    rp = rep.rule("R-NINJA-NO-PERPETUAL-FORCE", "forceChange is tied to an event of this build (a failure, a process that really ran, restat); a condition that persists "
+                                                "across builds with no external change - such as 'no file is named like this phony target' - must not force a change, "
+                                                "or every consumer re-runs in every build", floor=1)
+    comps_ia = ia.calls("TaskInterface::complete")
+    n_force = 0
+    for c in comps_ia:
+        a = arg_nodes(c)
+        if len(a) < 2 or a[1] is None:
+            continue
+        fa = core(a[1])
+        if fa.get("k") == "bool":
+            continue
+        n_force += 1
+        # where does the flag come from?
+        src_txt = expr_plain(a[1])
+        writes = [n for n in ia.nodes if n.get("k") == "bin" and n["op"] == "=" and expr_plain(n.child("l")) == src_txt]
+        bad = None
+        for w_ in writes:
+            if core(w_.child("r")).get("v") is True:
+                st = bia.at_node(w_) or frozenset()
+                if any(p and "isMissing()" in a_ for a_, p in st) and any(p and "getPhonyRule" in a_ for a_, p in (bia.at_node(c) or frozenset())):
+                    bad = w_
+        rp.check(bad is None, "inputsAvailable|phony-force-change-from-missing-output", "", "the phony completion forces a change whenever no file is named like one of its outputs: "
+                 "an alias target (never a file) changes in every build and every command consuming it re-runs", ia, bad or c)
+    if n_force == 0:
+        raise AnalysisBroken("inputsAvailable: no completion with a computed forceChange found")
     sel = [f for f in prog.functions.values() if relpath(f.file) == NB and not f.is_lambda and f.name.endswith("SelectResultTask::inputsAvailable")]
     if len(sel) != 1:
         raise AnalysisBroken("SelectResultTask::inputsAvailable not found")
